@@ -1,6 +1,7 @@
 SPECIFICATION Spec
 CONSTANTS
   Assets = {"A", "B"}
+  Bug = "none"
   MaxDepth = 6
   FeeChoice = 1
   PfLevel = FALSE
